@@ -1289,6 +1289,13 @@ fn gen_singles(spec: &Spec) -> Vec<Case> {
             v.push(Case::one(c, vec![(i, vec![f("Token.sol", &[4]), f("Token.sol", &[4]), f("Token.sol", &[4])])]));
             v.push(Case::one(c, vec![(i, vec![f("a.sol", &[4, 17]), f("b.sol", &[17, 20]), f("a.sol", &[4, 17])])]));
             v.push(Case::one(c, vec![(i, vec![f("a.sol", &[4, 17]), f("a.sol", &[17, 20])])]));
+            // names that normalisation / "natural" or case-insensitive ordering would conflate
+            v.push(Case::one(c, vec![(i, vec![f("./a.sol", &[4]), f("a.sol", &[5])])]));
+            v.push(Case::one(c, vec![(i, vec![f("a.sol", &[5]), f("./a.sol", &[4]), f("../a.sol", &[6]), f(".a.sol", &[7])])]));
+            v.push(Case::one(c, vec![(i, vec![f("V1.sol", &[7]), f("V01.sol", &[7])])]));
+            v.push(Case::one(c, vec![(i, vec![f("V01.sol", &[7]), f("V1.sol", &[7]), f("V001.sol", &[7])])]));
+            v.push(Case::one(c, vec![(i, vec![f("Token.sol", &[4]), f("token.sol", &[4])])]));
+            v.push(Case::one(c, vec![(i, vec![f("token.sol", &[4]), f("Token.sol", &[4]), f("TOKEN.sol", &[4])])]));
         }
     }
     v
@@ -1523,6 +1530,10 @@ fn run_c13(tier: &str, seed: u64) -> CheckResult {
             cases.push(Case::one(c, vec![(i, vec![("a.sol".into(), vec![3])]), (j, vec![("a.sol".into(), vec![5])])]));
             cases.push(Case::one(c, vec![(i, vec![("b.sol".into(), vec![7]), ("a.sol".into(), vec![2, 9])])]));
             cases.push(Case::one(c, vec![(i, vec![("a.sol".into(), vec![7]), ("a.sol".into(), vec![2, 9])])]));
+            // names that compare equal under a "natural" (digit runs as numbers) or case-insensitive key, same line sets
+            cases.push(Case::one(c, vec![(i, vec![("V1.sol".into(), vec![7]), ("V01.sol".into(), vec![7]), ("V001.sol".into(), vec![7])])]));
+            cases.push(Case::one(c, vec![(i, vec![("Token.sol".into(), vec![4]), ("token.sol".into(), vec![4]), ("TOKEN.sol".into(), vec![4])])]));
+            cases.push(Case::one(c, vec![(i, vec![("./a.sol".into(), vec![4]), ("a.sol".into(), vec![4]), (".//a.sol".into(), vec![4])])]));
         }
         cases.push(Case::one(c, (0..spec.n(c)).map(|i| (i, vec![("b.sol".to_string(), vec![1]), ("a.sol".to_string(), vec![2])])).collect()));
     }
